@@ -106,9 +106,10 @@ func (c *c20Run) mgmtOp(r *rand.Rand) {
 	switch r.IntN(16) {
 	case 0: // add and later delete an extra peer (never connected, or connected briefly)
 		c.extraN++
-		addr := fmt.Sprintf("10.0.1.%d", c.extraN)
+		extra := c.extraN // (captured by value: the spawned goroutine must not read the harness's counter)
+		addr := fmt.Sprintf("10.0.1.%d", extra)
 		c.spawn("add-delete-peer", func() {
-			p := &api.Peer{Conf: &api.PeerConf{NeighborAddress: addr, PeerAsn: uint32(65200 + c.extraN%5)}, Transport: &api.Transport{PassiveMode: true}}
+			p := &api.Peer{Conf: &api.PeerConf{NeighborAddress: addr, PeerAsn: uint32(65200 + extra%5)}, Transport: &api.Transport{PassiveMode: true}}
 			if s.AddPeer(c20Bg, &api.AddPeerRequest{Peer: p}) == nil {
 				s.ListPeer(c20Bg, &api.ListPeerRequest{Address: addr}, func(*api.Peer) {})
 				s.DeletePeer(c20Bg, &api.DeletePeerRequest{Address: addr})
